@@ -332,6 +332,8 @@ func exprKey(v ssa.Value) string {
 		return "global:" + x.String()
 	case *ssa.Alloc:
 		return fmt.Sprintf("alloc:%p", x)
+	case *ssa.MakeMap:
+		return fmt.Sprintf("makemap:%p", x)
 	case *ssa.FieldAddr:
 		if k := exprKey(x.X); k != "" {
 			return k + "." + fieldName(x.X.Type(), x.Field)
@@ -471,6 +473,90 @@ func (mr *mapRange) classify(c *Ctx, eff map[*ssa.Function]effectSet) {
 					continue
 				}
 				tok["call:dynamic"] = true
+			}
+		}
+	}
+	// "first one wins": a lookup in a map the body itself fills, whose found
+	// edge goes on with the next element instead of leaving the function -
+	// which entry is kept then depends on the order the map is ranged in
+	written := map[string]bool{}
+	for b := range inBody {
+		for _, in := range b.Instrs {
+			if mu, ok := in.(*ssa.MapUpdate); ok {
+				if k := exprKey(mu.Map); k != "" {
+					written[k] = true
+				}
+			}
+		}
+	}
+	header := mr.Next.Block()
+	for b := range inBody {
+		for _, in := range b.Instrs {
+			lk, ok := in.(*ssa.Lookup)
+			if !ok || !lk.CommaOk || lk.Referrers() == nil || !written[exprKey(lk.X)] {
+				continue
+			}
+			for _, ref := range *lk.Referrers() {
+				ex, ok := ref.(*ssa.Extract)
+				if !ok || ex.Index != 1 || ex.Referrers() == nil {
+					continue
+				}
+				for _, r2 := range *ex.Referrers() {
+					ifi, ok := r2.(*ssa.If)
+					if !ok {
+						continue
+					}
+					found := ifi.Block().Succs[0]
+					seen := map[*ssa.BasicBlock]bool{}
+					var reach func(b *ssa.BasicBlock) bool
+					reach = func(b *ssa.BasicBlock) bool {
+						if b == header {
+							return true
+						}
+						if seen[b] || !inBody[b] {
+							return false
+						}
+						seen[b] = true
+						// the other branch of the very test does not count
+						for _, s := range b.Succs {
+							if reach(s) {
+								return true
+							}
+						}
+						return false
+					}
+					// only a found-edge that skips the rest of the body (it
+					// does not pass the update of that map) is "first wins"
+					skips := false
+					if reach(found) {
+						skips = true
+						seen2 := map[*ssa.BasicBlock]bool{}
+						var viaUpdate func(b *ssa.BasicBlock) bool
+						viaUpdate = func(b *ssa.BasicBlock) bool {
+							if seen2[b] || !inBody[b] {
+								return false
+							}
+							seen2[b] = true
+							for _, i2 := range b.Instrs {
+								if mu, ok := i2.(*ssa.MapUpdate); ok && exprKey(mu.Map) == exprKey(lk.X) {
+									return true
+								}
+							}
+							for _, s := range b.Succs {
+								if viaUpdate(s) {
+									return true
+								}
+							}
+							return false
+						}
+						if viaUpdate(found) {
+							skips = false // found entries are replaced/updated: last one wins, same for all orders only if keyed by loop key
+						}
+					}
+					if skips {
+						tok["skip:first-wins"] = true
+					}
+				}
 			}
 		}
 	}
